@@ -225,5 +225,30 @@ def run_kani_obligations(obs, work, tier, seed):
     return results
 
 
+def concrete_playback(harness, timeout=900):
+    """CBMC's counterexample for a failed harness as concrete kani::any() values (call order)"""
+    r = run_kani([harness], timeout=timeout, jobs=1, extra=["-Z", "concrete-playback", "--concrete-playback=print"])
+    out = r.get("__out__", "")
+    m = re.search(r"```\s*\n(.*?)```", out, re.S)
+    test = m.group(1) if m else None
+    if not test:
+        return None
+    vals = []
+    for vec in re.findall(r"vec!\[([0-9, ]*)\]", test):
+        bs = [int(x) for x in vec.replace(" ", "").split(",") if x != ""]
+        if not bs:
+            continue
+        vals.append(int.from_bytes(bytes(bs), "little"))
+    return {"values": vals, "test": test}
+
+
 def counterexample_search(prop, result, failure):
-    return None
+    """lane K: turn CBMC's counterexample into concrete inputs; lane V: no counterexample is available from Verus"""
+    if result.get("lane") != "kani":
+        return None
+    cp = concrete_playback(failure["function"])
+    if not cp:
+        return None
+    text = "harness: %s\nkani::any() values in call order (little-endian decoded): %s\n\nconcrete playback test generated by Kani (runs the harness body on these values against the real crate):\n%s" % (
+        failure["function"], cp["values"], cp["test"])
+    return {"text": text}
